@@ -1230,6 +1230,8 @@ class FakeCategorical(_S):
 
 def _make_index(data=None, name=None, **kw):
     """pd.Index(...) : a labelled model for concrete label lists, the length-only model otherwise"""
+    if isinstance(data, A) and data.ndim == 1 and not any(is_sym(c) or isinstance(c, SF) for c in data.cells):
+        data = list(data.cells)
     if isinstance(data, (list, tuple)) and all(isinstance(x, (str, int, float)) for x in data):
         return LIndex(list(data), name)
     return FakeIndex(data if data is not None else 0)
@@ -1253,6 +1255,10 @@ class PDShim:
     Index = _IndexFactory
     RangeIndex = FakeRangeIndex
     Categorical = FakeCategorical
+
+    class core:
+        class base:
+            PandasObject = _S            # Series / Index / frame fakes all derive from _S
 
     @staticmethod
     def isna(x):
@@ -1287,6 +1293,8 @@ class PDShim:
         class types:
             @staticmethod
             def is_bool_dtype(x):
+                if isinstance(x, FakeSeries):
+                    x = x.arr
                 return isinstance(x, A) and x.dtype.kind == "b"
 
         class extensions:
